@@ -70,7 +70,10 @@ def reload (t : Timer) : Timer :=
 /-- `TimerDevice::poll_interrupt` -/
 def poll (t : Timer) : Timer × Option Interrupt :=
   if !t.enabled then (t, none)
-  else if t.time = 0 then (t.reload, none)
+  else if t.time = 0 then
+    -- reload; a sampled interval of 0 fires on this very poll (fix F20)
+    let t' := t.reload
+    (t', if t'.time = 0 then some (Interrupt.mkVectored t.vect t.prio) else none)
   else if t.time = 1 then ({ t with time := 0 }, some (Interrupt.mkVectored t.vect t.prio))
   else ({ t with time := t.time - 1 }, none)
 end Timer
